@@ -64,6 +64,12 @@ def extra(report, env):
                 bad('%s(%s(s))' % (fn, fn), {'s': s}, '%s is idempotent: once %r, twice %r' % (fn, r1, r2))
             if fn in ('UPPER', 'LOWER', 'PROPER') and r1['error'] is None and r1['result'].casefold() != s.casefold():
                 bad('%s(s)' % fn, {'s': s}, '%s changes letter case only: %r' % (fn, r1))
+        # SUBSTITUTE: the new text is taken literally, whatever it looks like (backslashes, group references, dollars, ampersands)
+        for new in ('\\n', '\\\\', '\\g<0>', '\\1', '$1', '&', '\\', 'a\\tb', '[x]', '.*'):
+            cases += 1
+            r = val('SUBSTITUTE(s,"a",nw)', s=s + 'a', nw=new)
+            if r['result'] != (s + 'a').replace('a', new):
+                bad('SUBSTITUTE(s,"a",nw)', {'s': s + 'a', 'nw': new}, 'every occurrence replaced by exactly the new text: expected %r got %r' % ((s + 'a').replace('a', new), r))
         # TRIM touches blanks only: the words are kept, single blanks between them
         cases += 1
         r = val('TRIM(s)', s=s)
@@ -78,12 +84,13 @@ def extra(report, env):
             r = val('SUBSTITUTE(s,"a","#",%d)' % k, s=s)
             if r['result'] != want:
                 bad('SUBSTITUTE(s,"a","#",%d)' % k, {'s': s}, 'only the %d-th occurrence: expected %r got %r' % (k, want, r))
-    for nneg in (-1, -5):
-        for f in ('LEFT("abc",%d)', 'RIGHT("abc",%d)', 'MID("abc",1,%d)'):
+    for nneg in (-1, -5, -0.5, -0.1, -1.5, -1e-9):
+        p.set_variable('cnt', nneg)
+        for f in ('LEFT("abc",cnt)', 'RIGHT("abc",cnt)', 'MID("abc",1,cnt)'):
             cases += 1
-            r = p.parse(f % nneg)
+            r = p.parse(f)
             if r['error'] != '#VALUE!':
-                bad(f % nneg, {}, 'a negative count is #VALUE!: got %r' % (r,))
+                bad(f, {'cnt': nneg}, 'a negative count is #VALUE!: got %r' % (r,))
     for n in list(range(1, 256)) + [256, 8364, 0x4E2D, 0x10FFFF]:
         cases += 1
         r = p.parse('CODE(CHAR(%d))' % n)
